@@ -567,8 +567,28 @@ def r4_gsd_partial(ctx, repo):
     mrt = [canonical(t) for _, t in Terms(mpd).returns if t is not None] if mpd else []
     pa, oa_ = func_params(mpd)[:2] if mpd else ("partitions", "ortogonal_array")
     wantm = "np.vstack([list(itertools.product(*[{p}[_0[_1]][_1] for _1 in range(len(_0))])) for _0 in {o} if not any((not {p}[_3][_2] for _2, _3 in enumerate(_0)))])".format(p=pa, o=oa_)
-    ctx.check3(True if mrt == [wantm] else None, "R4", "doe._map_partitions_to_design", where(doe, mpd or mp), "each orthogonal-array row contributes the full product of its factors' partition sets",
-               unknown_detail="row-to-design mapping not recognised", key="row-products")
+    mstate, mbad_ = (True if mrt == [wantm] else None), ""
+    if mstate is None and mpd is not None:
+        # a recognised contradiction: the row filter asks whether a partition is empty for ANY factor (all()/any() over a whole
+        # element of the partition table) instead of for the factor the row pairs it with
+        TM = Terms(mpd)
+        for st_ in stmts_of(mpd):
+            for n_ in ast.walk(st_):
+                if isinstance(n_, ast.Call) and access_path(n_.func) in ("all", "any") and len(n_.args) == 1:
+                    a_ = n_.args[0]
+                    ax = TM.expand(a_, at=st_, elems=True) if not isinstance(st_, (ast.For, ast.While)) else a_
+                    # an element of the partition table as a whole: partitions[p] / the loop variable of enumerate(partitions)
+                    whole = isinstance(ax, ast.Subscript) and access_path(ax.value) == pa and not isinstance(ax.slice, ast.Slice)
+                    if isinstance(a_, ast.Name):
+                        for cg in [g_ for c_ in ast.walk(mpd) if isinstance(c_, (ast.SetComp, ast.ListComp, ast.GeneratorExp, ast.DictComp)) for g_ in c_.generators]:
+                            names_ = [t_.id for t_ in ast.walk(cg.target) if isinstance(t_, ast.Name)]
+                            if a_.id in names_ and pa in text(cg.iter):
+                                whole = True
+                    if whole:
+                        mstate, mbad_ = False, ("rows are filtered by %s, i.e. by whether a partition has an empty level list for ANY factor, not for the factor the row pairs it with: "
+                                                "rows whose own (partition, factor) pairs are all non-empty are dropped, so the complementary designs no longer cover the full factorial" % text(n_))
+    ctx.check3(mstate, "R4", "doe._map_partitions_to_design", where(doe, mpd or mp), "each orthogonal-array row contributes the full product of its factors' partition sets",
+               mbad_, "row-to-design mapping not recognised", key="row-products")
     # orthogonal-array augmentation: matrix i is combined with the matrices selected by row i of the latin square
     oa = doe.functions.get("_make_orthogonal_arrays")
     if oa is not None:
